@@ -80,6 +80,25 @@ theorem movie_path_eq_cli (t : Script) : runOps [.L, .J] t = [fresh .L t, fresh 
 /-- generating twice in either order -/
 example (t : Script) : runOps [.J, .L, .J, .L] t = [fresh .J t, fresh .L t, fresh .J t, fresh .L t] := gen_history _ t
 
+/-- non-vacuity: a generation really changes the tree (here `use_parenthesis` of a statement-level call), and the
+    statement below is about exactly such trees -/
+def exFunc : FuncDef :=
+  { name := S "h"
+    pos := 0
+    stmts := [.stmt 4 (.callFn (.s (S "put")) 4 (.loadList (S "load_list") 2 [.sym (.s (S "loop")) 0 true]) true false false)] }
+def exScript : Script := { functions := [exFunc] }
+
+def parenFlags (s : Script) : List Bool := s.functions.flatMap fun f => f.stmts.map fun st =>
+  match st with | .stmt _ (.callFn _ _ _ up _ _) => up | _ => true
+
+example : parenFlags exScript = [true] ∧ parenFlags (afterLingoScript exScript) = [false] := by
+  constructor
+  · simp [parenFlags, exScript, exFunc]
+  · simp [parenFlags, afterLingoScript, afterLingoFunc, afterLingoBody, endsWithExit, exScript, exFunc, afterLingoList, afterLingo,
+      clearParen, Node.name, S, Except.map, (by decide : (Name.s ['p','u','t'] == Name.s ['e','x','i','t']) = false)]
+
+example : runOps [.L, .J, .L] exScript = [fresh .L exScript, fresh .J exScript, fresh .L exScript] := gen_history _ exScript
+
 /-! ### parse histories -/
 
 /-- C12, second half: the operand registers left in the opcode singletons by earlier parses never influence a later
